@@ -24,7 +24,7 @@ Proof. exact bb_consts_ok. Qed.
 Print Assumptions C11_blackbox_consts_ok.
 
 (* The reclaim loop of qb_rb_chunk_alloc terminates within the model's fuel (chunks <= used/2 < word_size) and does
-   what the abstract writer does - drop oldest chunks until the reservation is admitted, EINVAL if even the empty
+   what the abstract writer does - drop oldest chunks until the reservation is accepted, EINVAL if even the empty
    ring is too small; hence for EVERY operation list over write / alloc+commit / read / peek / reclaim / query / dump
    on an overwrite ring, with or without the notifier, the ring's return values and delivered bytes are those of the
    abstract overwrite queue, the invariant is preserved and OutOfFuel never appears. *)
@@ -35,7 +35,7 @@ Theorem C11_reclaim_loop_terminates_and_refines : forall ops b s, Inv b s -> ovw
 Proof. exact ow_run_refines. Qed.
 Print Assumptions C11_reclaim_loop_terminates_and_refines.
 
-(* One write of at most the requested size: it is admitted after dropping oldest chunks, and only chunks that had
+(* One write of at most the requested size: it is accepted after dropping oldest chunks, and only chunks that had
    to go are dropped - every run of newest chunks that fits together with the new reservation survives. *)
 Theorem C11_write_drops_only_what_it_must : forall W S pend q rlen d,
   S + RB_CHUNK_MARGIN + RB_SIZE_EXTRA <= 4 * W -> rlen <= S -> Keeps S pend q ->
